@@ -1,391 +1,651 @@
-import Aiorpcx.C08.Closing
+import Aiorpcx.C08.Anytime
 import Aiorpcx.Facts.C08
 /-!
 # C08 — losing or closing a connection releases every waiter and leaves no task behind
 
-Model: `Aiorpcx.C08.step` (`Model.lean`): events request / handlerFinish / outgoing / answer /
-drop / appClose / abort / advance over the state of one connection, observed at quiescence.
+Model: `Aiorpcx.C08.step` (`Model.lean`): events request / replyClose / handlerFinish /
+handlerCancel / outgoing / answer / drop / appClose / cancelClose / abort / advance over the state
+of one connection, observed at quiescence; the code *with repair F25* (`fixed = true`).
 Every theorem below is about **every** finite event sequence from the initial state (any
-`sent_request_timeout > 0`, transport stalled or not), i.e. about every reachable state `s`.
+`sent_request_timeout > 0`, `processing_timeout > 0`, outgoing limit, transport stalled or not),
+i.e. about every reachable state `s`.  The behaviour of the pinned code (`initPinned`) where it
+differs is kept as `..._pinned_witness` theorems.
 -/
 namespace Aiorpcx.C08
 
 /-- the states reachable from the start of a connection by any finite sequence of events -/
-def Reachable (s : S) : Prop := ∃ rt st es, 0 < rt ∧ s = run (init rt st) es
+def Reachable (s : S) : Prop :=
+  ∃ rt pt ol st es, 0 < rt ∧ 0 < pt ∧ s = run (init rt pt ol st) es
 
 theorem Reachable.inv {s : S} (h : Reachable s) : Inv s := by
-  obtain ⟨rt, st, es, hrt, rfl⟩ := h
-  exact reachable_inv rt st hrt es
+  obtain ⟨rt, pt, ol, st, es, hrt, hpt, rfl⟩ := h
+  exact reachable_inv rt pt ol st hrt hpt es
+
+theorem run_append (l : List Event) (e : Event) : ∀ (q : S), run q (l ++ [e]) = step (run q l) e := by
+  induction l with
+  | nil => intro q; rfl
+  | cons x l ih => intro q; exact ih _
+
+theorem run_app (l1 l2 : List Event) : ∀ (q : S), run q (l1 ++ l2) = run (run q l1) l2 := by
+  induction l1 with
+  | nil => intro q; rfl
+  | cons x l ih => intro q; exact ih _
 
 theorem Reachable.step {s : S} (h : Reachable s) (e : Event) : Reachable (step s e) := by
-  obtain ⟨rt, st, es, hrt, rfl⟩ := h
-  refine ⟨rt, st, es ++ [e], hrt, ?_⟩
-  have : ∀ (l : List Event) (q : S), run q (l ++ [e]) = Aiorpcx.C08.step (run q l) e := by
-    intro l; induction l with
-    | nil => intro q; rfl
-    | cons x l ih => intro q; exact ih _
-  exact (this es _).symm
+  obtain ⟨rt, pt, ol, st, es, hrt, hpt, rfl⟩ := h
+  exact ⟨rt, pt, ol, st, es ++ [e], hrt, hpt, (run_append es e _).symm⟩
 
-/-- **The connection-lost hook runs exactly once**: never twice, and it has run iff the
-connection is lost. -/
+theorem Reachable.run {s : S} (h : Reachable s) (es : List Event) : Reachable (run s es) := by
+  induction es generalizing s with
+  | nil => exact h
+  | cons e es ih => exact ih (h.step e)
+
+theorem Reachable.ginv {s : S} (h : Reachable s) : GInv s := by
+  obtain ⟨rt, pt, ol, st, es, hrt, hpt, rfl⟩ := h
+  exact run_ginv es (init_inv rt pt ol st hrt hpt) (init_ginv rt pt ol st)
+
+/-- the invariant over all event sequences (the name used in DESIGN.md) -/
+theorem reachable_inv' {s : S} (h : Reachable s) : Inv s ∧ GInv s := ⟨h.inv, h.ginv⟩
+
+/-- **The connection-lost hook runs exactly once**: never twice; it has run iff message
+processing has been torn down; and once the connection is lost it has run. -/
 theorem hook_at_most_once {s : S} (h : Reachable s) :
-    s.hookRuns ≤ 1 ∧ (s.lost = true ↔ s.hookRuns = 1) := by
-  have := h.inv.h.hook
-  rcases Bool.eq_false_or_eq_true s.lost with hl | hl <;> simp [hl] at this ⊢ <;> omega
+    s.hookRuns ≤ 1 ∧ (s.down = true ↔ s.hookRuns = 1) ∧ (s.lost = true → s.hookRuns = 1) := by
+  have hk := h.inv.h.hook
+  have hld := h.inv.h.lostDown
+  rcases Bool.eq_false_or_eq_true s.down with hd | hd
+  · simp [hd] at hk hld ⊢; omega
+  · simp only [hd] at hk hld ⊢
+    have hl : s.lost = false := by
+      cases hl : s.lost
+      · rfl
+      · exact absurd (hld hl) (by simp)
+    simp [hk, hl]
 
 /-- **`_closed_event` is set exactly when the connection is lost and every handler is done.** -/
 theorem closed_iff {s : S} (h : Reachable s) :
     s.closedEvent = true ↔ (s.lost = true ∧ ∀ x ∈ s.handlers, x.status = .done) :=
-  ⟨h.inv.h.closedThen, fun ⟨a, b⟩ => h.inv.h.closedIf a b⟩
+  ⟨h.inv.h.closedThen, fun ⟨a, b⟩ => h.inv.settled (h.inv.h.lostDown a) b⟩
+
+/-- in the pinned code a handler task that ends with a cancellation the session did not ask for
+tears message processing down and sets `_closed_event` while the connection stays open: the
+session is dead, its socket is not closed -/
+theorem closed_iff_pinned_witness :
+    let s := run (initPinned 30 30 50 false) [.request 1 .slow, .handlerCancel 1, .advance 100]
+    s.closedEvent = true ∧ s.hookRuns = 1 ∧ s.lost = false ∧ s.closing = false := by decide +kernel
+
+/-- ... with the repair the transport is aborted as soon as message processing has ended -/
+example :
+    let s := run (init 30 30 50 false) [.request 1 .slow, .handlerCancel 1]
+    s.closedEvent = true ∧ s.hookRuns = 1 ∧ s.lost = true ∧ s.abortedAt = some 0 := by decide +kernel
 
 /-- **Closed means clean**: once `_closed_event` is set no handler is alive, no request
-registered before the loss is still waiting, the hook ran exactly once, the message loop is gone
-and nobody is still inside `close()`. -/
+registered before the teardown is still waiting, the hook ran exactly once, the message loop is
+gone and nobody is still inside `close()`. -/
 theorem closed_implies_clean {s : S} (h : Reachable s) (hc : s.closedEvent = true) :
     (∀ x ∈ s.handlers, x.status = .done) ∧
-    (∀ t ∈ s.tickets, t.afterLoss = false → t.status ≠ .pending) ∧
+    (∀ t ∈ s.tickets, t.afterLoss = false → t.status ≠ .pending ∧ t.status ≠ .queued) ∧
     s.hookRuns = 1 ∧ s.loopAlive = false ∧
-    (∀ c ∈ s.closers, ∃ a, c.st = .returned a) := by
+    (∀ c ∈ s.closers, (∃ a, c.st = .returned a) ∨ (∃ a, c.st = .cancelled a)) := by
   have i := h.inv
   have hl := (i.h.closedThen hc).1
-  refine ⟨(i.h.closedThen hc).2, i.t.settled hl, ?_, ?_, i.c.closedAll hc⟩
-  · have := i.h.hook; simpa [hl] using this
-  · have := i.h.loop; simpa [hl] using this
+  have hd := i.h.lostDown hl
+  refine ⟨(i.h.closedThen hc).2, ?_, ?_, ?_, ?_⟩
+  · intro t ht ha
+    have := i.t.ok t ht
+    unfold TOk at this
+    rw [hd] at this
+    constructor <;> intro hs <;> simp [hs, ha] at this
+  · have := i.h.hook; simpa [hd] using this
+  · simp [S.loopAlive, hd]
+  · intro c hcm
+    have := i.c.ok c hcm
+    unfold COk at this
+    rw [hc] at this
+    cases hs : c.st with
+    | waiting => simp [hs] at this
+    | abortedWaiting => simp [hs] at this
+    | returned a => left; exact ⟨a, rfl⟩
+    | cancelled a => right; exact ⟨a, rfl⟩
 
-example : (run (init 30 false) [.request 1 .slow, .outgoing 1, .appClose 1 7]).closedEvent = true := by
-  decide
+example : (run (init 30 30 50 false) [.request 1 .slow, .outgoing 1, .appClose 1 7]).closedEvent = true := by
+  decide +kernel
 
 /-! ## waiters -/
 
-theorem lose_tickets {q : S} (hl : q.lost = false) : q.lose.tickets = q.tickets.map cancelTicket := by
-  unfold S.lose
-  simp only [hl, Bool.false_eq_true, ↓reduceIte, settle_tickets]
-  rfl
-
-/-- **Delivery of `connection_lost` cancels every pending request** (and touches no other). -/
-theorem waiters_cancelled_at_loss {s : S} (hl : s.lost = false) :
-    s.lose.lost = true ∧
-    (∀ t ∈ s.tickets, t.status = .pending → { t with status := .cancelled } ∈ s.lose.tickets) ∧
-    (∀ t ∈ s.tickets, t.status ≠ .pending → t ∈ s.lose.tickets) := by
-  refine ⟨lose_lost s, ?_, ?_⟩
-  · intro t ht hp
-    rw [lose_tickets hl]
-    refine List.mem_map.mpr ⟨t, ht, ?_⟩
-    unfold cancelTicket; simp [hp]
-  · intro t ht hp
-    rw [lose_tickets hl]
-    refine List.mem_map.mpr ⟨t, ht, ?_⟩
-    unfold cancelTicket
-    split
-    · rename_i e; exact absurd e hp
-    · rfl
+/-- **The teardown cancels every caller waiting for a response** - those whose request is out
+and those still queued for a slot of the outgoing limiter - and touches no other. -/
+theorem waiters_cancelled_at_teardown (s : S) :
+    s.teardown.down = true ∧ s.teardown.tickets = s.tickets.map cancelTicket ∧
+    (∀ t, (t.status = .pending ∨ t.status = .queued) → (cancelTicket t).status = .cancelled) ∧
+    (∀ t, t.status ≠ .pending → t.status ≠ .queued → cancelTicket t = t) := by
+  refine ⟨rfl, rfl, ?_, ?_⟩
+  · intro t ht; unfold cancelTicket; rcases ht with h | h <;> simp [h]
+  · intro t h1 h2; unfold cancelTicket; split <;> simp_all
 
 /-- how an event may change the ticket list when it is not the clock and not about tickets:
-either not at all, or - if it brought the loss - by cancelling every pending one -/
+either not at all, or - if it brought the teardown - by cancelling every waiting one -/
 def TicketsKeptOrCancelled (q q' : S) : Prop :=
-  (q'.lost = q.lost ∧ q'.tickets = q.tickets) ∨
-  (q.lost = false ∧ q'.lost = true ∧ q'.tickets = q.tickets.map cancelTicket)
+  (q'.down = q.down ∧ q'.tickets = q.tickets) ∨
+  (q.down = false ∧ q'.down = true ∧ q'.tickets = q.tickets.map cancelTicket)
 
-theorem lose_tkc (q : S) : TicketsKeptOrCancelled q q.lose := by
-  rcases Bool.eq_false_or_eq_true q.lost with hl | hl
-  · left; rw [lose_lost_of_lost hl]; exact ⟨rfl, rfl⟩
-  · right; exact ⟨hl, lose_lost q, lose_tickets hl⟩
+theorem TicketsKeptOrCancelled.refl (q : S) : TicketsKeptOrCancelled q q := Or.inl ⟨rfl, rfl⟩
 
 theorem TicketsKeptOrCancelled.of_eq {q q1 q' : S} (h : TicketsKeptOrCancelled q1 q')
-    (hl : q1.lost = q.lost) (ht : q1.tickets = q.tickets) : TicketsKeptOrCancelled q q' := by
+    (hl : q1.down = q.down) (ht : q1.tickets = q.tickets) : TicketsKeptOrCancelled q q' := by
   unfold TicketsKeptOrCancelled at h ⊢
   rw [hl, ht] at h; exact h
 
+theorem settle_tkc {q q' : S} (h : TicketsKeptOrCancelled q q') : TicketsKeptOrCancelled q q'.settle := by
+  unfold TicketsKeptOrCancelled at *
+  rw [settle_down, settle_tickets]; exact h
+
+theorem lose_tkc (q : S) (why : Cause) : TicketsKeptOrCancelled q (q.lose why) := by
+  unfold S.lose
+  split
+  · exact .refl q
+  · apply settle_tkc
+    split
+    · rename_i hd; left; exact ⟨rfl, rfl⟩
+    · rename_i hd; right; exact ⟨by simpa using hd, rfl, rfl⟩
+
 theorem doAbort_tkc (q : S) : TicketsKeptOrCancelled q q.doAbort := by
-  unfold S.doAbort; exact (lose_tkc _).of_eq rfl rfl
+  unfold S.doAbort
+  split
+  · exact .refl q
+  · exact (lose_tkc _ _).of_eq rfl rfl
 
 theorem transportClose_tkc (q : S) : TicketsKeptOrCancelled q q.transportClose := by
   rcases transportClose_cases q with ⟨_, e⟩ | ⟨_, _, e⟩ | ⟨_, _, e⟩ <;> rw [e]
+  · exact .refl q
   · left; exact ⟨rfl, rfl⟩
-  · left; exact ⟨rfl, rfl⟩
-  · exact (lose_tkc _).of_eq rfl rfl
+  · exact (lose_tkc _ _).of_eq rfl rfl
 
-/-- **Whatever brings the loss - a closing handler, the link, `close()`, `abort()` - it
-cancels every pending request**: each of these events leaves the tickets alone or, if the
-connection was lost by it, turns exactly the pending ones into cancelled ones. -/
+theorem TicketsKeptOrCancelled.trans_kept {q q1 q2 : S} (h1 : TicketsKeptOrCancelled q q1)
+    (h2 : TicketsKeptOrCancelled q1 q2) (hk : q1.down = true → q2.tickets = q1.tickets ∧ q2.down = true) :
+    TicketsKeptOrCancelled q q2 := by
+  unfold TicketsKeptOrCancelled at *
+  rcases h1 with ⟨a, b⟩ | ⟨a, b, c⟩
+  · rw [a, b] at h2; exact h2
+  · right
+    obtain ⟨e1, e2⟩ := hk b
+    exact ⟨a, e2, by rw [e1, c]⟩
+
+theorem tkc_down_stays {q q' : S} (h : TicketsKeptOrCancelled q q') (hd : q.down = true) :
+    q'.tickets = q.tickets ∧ q'.down = true := by
+  rcases h with ⟨a, b⟩ | ⟨a, _, _⟩
+  · exact ⟨b, by rw [a, hd]⟩
+  · rw [hd] at a; cases a
+
+/-- `close()` followed at once by `abort()` -/
+theorem closeAbort_tkc (q q0 : S) (hd : q0.down = q.down) (ht : q0.tickets = q.tickets) :
+    TicketsKeptOrCancelled q q0.transportClose.doAbort :=
+  ((transportClose_tkc q0).of_eq hd ht).trans_kept (doAbort_tkc q0.transportClose)
+    (fun h => tkc_down_stays (doAbort_tkc q0.transportClose) h)
+
+theorem startCloser_tkc (q : S) (i d pdl : Nat) (im : Bool) :
+    TicketsKeptOrCancelled q (q.startCloser i d pdl im) := by
+  unfold S.startCloser
+  cases im with
+  | true =>
+    simp only [↓reduceIte]
+    exact closeAbort_tkc q _ rfl rfl
+  | false => exact (transportClose_tkc _).of_eq rfl rfl
+
+/-- **Whatever brings the teardown - a closing handler, the link, `close()`, `abort()`, a
+cancelled `close()`, a handler task ending with a cancellation - it cancels every waiting
+request**: each of these events leaves the tickets alone or, if message processing was torn
+down by it, turns exactly the waiting ones into cancelled ones. -/
 theorem loss_cancels_waiters (s : S) (e : Event)
-    (he : (∃ i k, e = .request i k) ∨ e = .drop ∨ (∃ c fa, e = .appClose c fa) ∨ e = .abort ∨
-          (∃ i, e = .handlerFinish i)) :
+    (he : (∀ k, e ≠ .outgoing k) ∧ (∀ k, e ≠ .answer k) ∧ (∀ dt, e ≠ .advance dt)) :
     TicketsKeptOrCancelled s (step s e) := by
-  rcases he with ⟨i, k, rfl⟩ | rfl | ⟨c, fa, rfl⟩ | rfl | ⟨i, rfl⟩
-  · unfold step; simp only []
+  cases e with
+  | request i k =>
+    unfold step; simp only []
     split
-    · left; exact ⟨rfl, rfl⟩
+    · exact .refl s
     · unfold S.startHandler
       cases k with
       | quick => left; exact ⟨rfl, rfl⟩
       | slow => left; exact ⟨rfl, rfl⟩
       | stubborn r => left; exact ⟨rfl, rfl⟩
       | aborter => exact (doAbort_tkc _).of_eq rfl rfl
-      | closer fa =>
-        simp only []
-        split
-        · exact (doAbort_tkc _).of_eq rfl rfl
-        · exact (transportClose_tkc _).of_eq rfl rfl
-  · unfold step; exact (lose_tkc _).of_eq rfl rfl
-  · unfold step; simp only []
+      | thenClose fa => left; exact ⟨rfl, rfl⟩
+      | closer fa => exact startCloser_tkc _ _ _ _ _
+  | replyClose i fa =>
+    unfold step; simp only []
+    split
+    · exact .refl s
+    · exact startCloser_tkc _ _ _ _ _
+  | handlerFinish i =>
+    unfold step; simp only []
     split
     · left; exact ⟨rfl, rfl⟩
     · split
-      · left; exact ⟨rfl, rfl⟩
-      · split
-        · exact (doAbort_tkc _).of_eq rfl rfl
-        · exact (transportClose_tkc _).of_eq rfl rfl
-  · exact doAbort_tkc s
-  · unfold step; simp only []
-    split <;> (left; exact ⟨rfl, rfl⟩)
-
-/-- the same for a second of the clock, where the loss can only come from a `force_after`
-abort: request timeouts due at that very instant fire first, everything else pending is
-cancelled -/
-theorem tick_cancels_waiters (s : S) :
-    (s.tick.lost = s.lost ∧ s.tick.tickets = s.tickets.map (expireTicket (s.now + 1))) ∨
-    (s.lost = false ∧ s.tick.lost = true ∧
-      s.tick.tickets = (s.tickets.map (expireTicket (s.now + 1))).map cancelTicket) := by
-  have h : TicketsKeptOrCancelled s.bump.expire s.bump.expire.fireClosers := by
-    unfold S.fireClosers; simp only []
+      · exact closeAbort_tkc s _ rfl rfl
+      · exact (transportClose_tkc _).of_eq rfl rfl
+  | handlerCancel i =>
+    show TicketsKeptOrCancelled s (s.crash i)
+    unfold S.crash
     split
+    · exact .refl s
+    · rename_i hg
+      simp only [Bool.or_eq_true, not_or, Bool.not_eq_true, Bool.not_eq_true'] at hg
+      dsimp only
+      apply settle_tkc
+      have h1 : TicketsKeptOrCancelled s ({ s with handlers := s.handlers.map (crashHandler i) } : S).teardown :=
+        Or.inr ⟨hg.1, rfl, rfl⟩
+      split
+      · exact h1.trans_kept (doAbort_tkc _)
+          (fun hd => tkc_down_stays
+            (doAbort_tkc ({ s with handlers := s.handlers.map (crashHandler i) } : S).teardown) hd)
+      · exact h1
+  | outgoing k => exact absurd rfl (he.1 k)
+  | answer k => exact absurd rfl (he.2.1 k)
+  | drop => exact (lose_tkc _ _).of_eq rfl rfl
+  | appClose c fa =>
+    unfold step; simp only []
+    split
+    · exact .refl s
+    · split
+      · exact (transportClose_tkc _).of_eq rfl rfl
+      · split
+        · exact closeAbort_tkc s _ rfl rfl
+        · exact (transportClose_tkc _).of_eq rfl rfl
+  | cancelClose c =>
+    show TicketsKeptOrCancelled s (s.cancelClose c)
+    unfold S.cancelClose
+    simp only []
+    split
+    · exact (doAbort_tkc _).of_eq rfl rfl
     · left; exact ⟨rfl, rfl⟩
-    · exact (lose_tkc _).of_eq rfl rfl
-  unfold S.tick
-  rw [settle_lost, settle_tickets]
-  exact h
+  | abort => exact doAbort_tkc s
+  | advance dt => exact absurd rfl (he.2.2 dt)
 
-/-- **After the loss no request registered before it is still waiting; a request is only ever
-cancelled by the loss; one registered after the hook ran is never cancelled or answered.** -/
+/-- the same for a second of the clock, where the teardown can only come from an abort forced
+by a `close()` whose wait is cut short: request timeouts due at that very instant fire first and
+the limiter hands on the slots they free, everything else waiting is cancelled -/
+theorem tick_cancels_waiters (s : S) :
+    TicketsKeptOrCancelled s.fired s.tick := by
+  rw [tick_eq]
+  split
+  · exact settle_tkc (doAbort_tkc _)
+  · exact settle_tkc (.refl _)
+
+/-- **After the teardown no request registered before it is still waiting; a request is only
+ever cancelled by the teardown; one registered after the hook ran is never cancelled or
+answered.** -/
 theorem waiters_settled {s : S} (h : Reachable s) :
-    (s.lost = true → ∀ t ∈ s.tickets, t.afterLoss = false → t.status ≠ .pending) ∧
-    (∀ t ∈ s.tickets, t.status = .cancelled → s.lost = true ∧ t.afterLoss = false) ∧
-    (∀ t ∈ s.tickets, t.afterLoss = true → t.status = .pending ∨ t.status = .timedOut t.deadline) := by
+    (s.down = true → ∀ t ∈ s.tickets, t.afterLoss = false →
+      t.status ≠ .pending ∧ t.status ≠ .queued) ∧
+    (∀ t ∈ s.tickets, t.status = .cancelled → s.down = true ∧ t.afterLoss = false) ∧
+    (∀ t ∈ s.tickets, t.afterLoss = true →
+      s.down = true ∧ (t.status = .queued ∨ t.status = .pending ∨ t.status = .timedOut t.deadline)) := by
   have i := h.inv.t
-  refine ⟨i.settled, ?_, ?_⟩
-  · intro t ht hc
-    rcases Bool.eq_false_or_eq_true s.lost with hl | hl
-    · refine ⟨hl, ?_⟩
-      rcases Bool.eq_false_or_eq_true t.afterLoss with ha | ha
-      · exact absurd hc (i.afterFlag t ht ha).2.1
-      · exact ha
-    · exact absurd hc (i.noCancel hl t ht)
+  refine ⟨?_, ?_, ?_⟩
+  · intro hd t ht ha
+    have := i.ok t ht
+    unfold TOk at this
+    rw [hd] at this
+    constructor <;> intro hs <;> simp [hs, ha] at this
+  · intro t ht hs
+    have := i.ok t ht
+    unfold TOk at this
+    simp only [hs] at this
+    exact this.2
   · intro t ht ha
-    have := i.afterFlag t ht ha
+    have := i.ok t ht
+    unfold TOk at this
+    refine ⟨this.1 ha, ?_⟩
     cases hs : t.status with
-    | pending => left; rfl
-    | answered => exact absurd hs this.2.2
-    | cancelled => exact absurd hs this.2.1
-    | timedOut a => right; rw [(i.timedAt t ht a hs).1]
+    | queued => left; rfl
+    | pending => right; left; rfl
+    | answered => simp [hs, ha] at this
+    | cancelled => simp [hs, ha] at this
+    | timedOut a => simp only [hs] at this; right; right; rw [this.2.1]
 
-/-- **Waiters are cancelled** (the name used in DESIGN.md): after the loss every request that
-was registered before it has been settled - cancelled if it was pending when `connection_lost`
-was delivered (`waiters_cancelled_at_loss`, `loss_cancels_waiters`, `tick_cancels_waiters`), and
-cancellation never comes from anywhere else. -/
-theorem waiters_cancelled {s : S} (h : Reachable s) (hl : s.lost = true) :
+/-- **Waiters are cancelled** (the name used in DESIGN.md): after the teardown every request
+that was registered before it has been settled - cancelled if it was waiting when message
+processing ended (`waiters_cancelled_at_teardown`, `loss_cancels_waiters`,
+`tick_cancels_waiters`), and cancellation never comes from anywhere else. -/
+theorem waiters_cancelled {s : S} (h : Reachable s) (hd : s.down = true) :
     ∀ t ∈ s.tickets, t.afterLoss = false →
       t.status = .answered ∨ t.status = .cancelled ∨ t.status = .timedOut t.deadline := by
   intro t ht ha
-  have i := h.inv.t
+  have := h.inv.t.ok t ht
+  unfold TOk at this
+  rw [hd] at this
   cases hs : t.status with
-  | pending => exact absurd hs (i.settled hl t ht ha)
+  | queued => simp [hs, ha] at this
+  | pending => simp [hs, ha] at this
   | answered => left; rfl
   | cancelled => right; left; rfl
-  | timedOut a => right; right; rw [(i.timedAt t ht a hs).1]
+  | timedOut a => simp only [hs] at this; right; right; rw [this.2.1]
 
 /-- a request's timeout fires at exactly its deadline: in every reachable state a pending one
 has its deadline ahead, a timed-out one timed out at its deadline -/
 theorem request_timeout_exact {s : S} (h : Reachable s) :
     (∀ t ∈ s.tickets, t.status = .pending → s.now < t.deadline) ∧
-    (∀ t ∈ s.tickets, ∀ a, t.status = .timedOut a → a = t.deadline ∧ a ≤ s.now) :=
-  ⟨h.inv.t.pendingLt, h.inv.t.timedAt⟩
+    (∀ t ∈ s.tickets, ∀ a, t.status = .timedOut a → a = t.deadline ∧ a ≤ s.now) := by
+  have i := h.inv.t
+  constructor
+  · intro t ht hs
+    have := i.ok t ht
+    unfold TOk at this
+    simp only [hs] at this
+    exact this.2.1
+  · intro t ht a hs
+    have := i.ok t ht
+    unfold TOk at this
+    simp only [hs] at this
+    exact this.2
 
-/-- **A request registered after the hook ran ends with TaskTimeout at exactly its deadline**
-when time passes (nobody cancels it, nobody answers it). -/
+theorem mem_promoteList_of_not_queued {now rt : Nat} : ∀ (free : Nat) (l : List Ticket) (t : Ticket),
+    t ∈ l → t.status ≠ .queued → t ∈ promoteList now rt free l
+  | _, [], t, h, _ => by cases h
+  | 0, x :: l, t, h, _ => by simpa [promoteList] using h
+  | free + 1, x :: l, t, h, hq => by
+    unfold promoteList
+    split
+    · rename_i hx
+      rcases List.mem_cons.mp h with rfl | h
+      · exact absurd hx hq
+      · exact List.mem_cons_of_mem _ (mem_promoteList_of_not_queued free l t h hq)
+    · rcases List.mem_cons.mp h with rfl | h
+      · exact List.mem_cons_self
+      · exact List.mem_cons_of_mem _ (mem_promoteList_of_not_queued (free + 1) l t h hq)
+
+theorem tick_tickets_of_down {s : S} (hd : s.down = true) :
+    s.tick.tickets = s.fired.tickets := by
+  have := tkc_down_stays (tick_cancels_waiters s) (by rw [fired_down]; exact hd)
+  exact this.1
+
+/-- **A request sent after the hook ran ends with TaskTimeout at exactly its deadline** when
+time passes (nobody cancels it, nobody answers it). -/
 theorem late_request_times_out (n : Nat) : ∀ {s : S}, Inv s → ∀ t ∈ s.tickets,
     t.status = .pending → t.afterLoss = true → t.deadline = s.now + n →
     { t with status := .timedOut t.deadline } ∈ (s.advance n).tickets := by
   induction n with
   | zero =>
     intro s i t ht hp _ hd
-    have := i.t.pendingLt t ht hp
+    have := i.t.ok t ht
+    unfold TOk at this
+    simp only [hp] at this
     omega
   | succ n ih =>
     intro s i t ht hp ha hd
-    have hl := (i.t.afterFlag t ht ha).1
-    have htk : s.tick.tickets = s.tickets.map (expireTicket (s.now + 1)) := by
-      rcases tick_cancels_waiters s with ⟨_, e⟩ | ⟨e, _⟩
-      · exact e
-      · rw [hl] at e; cases e
+    have hk := i.t.ok t ht
+    unfold TOk at hk
+    have hdn := hk.1 ha
     show _ ∈ (s.tick.advance n).tickets
+    have hmem : expireTicket (s.now + 1) t ∈ s.tick.tickets := by
+      rw [tick_tickets_of_down hdn]
+      show _ ∈ promoteList _ _ _ (s.tickets.map (expireTicket (s.now + 1)))
+      apply mem_promoteList_of_not_queued _ _ _ (List.mem_map.mpr ⟨t, ht, rfl⟩)
+      unfold expireTicket; simp only [hp]; split <;> simp [hp]
     by_cases hn : n = 0
     · subst hn
       show _ ∈ s.tick.tickets
-      rw [htk]
-      refine List.mem_map.mpr ⟨t, ht, ?_⟩
-      unfold expireTicket
-      simp [hp, hd]
-    · have hmem : t ∈ s.tick.tickets := by
-        rw [htk]
-        refine List.mem_map.mpr ⟨t, ht, ?_⟩
+      have : expireTicket (s.now + 1) t = { t with status := .timedOut t.deadline } := by
+        unfold expireTicket; simp [hp, hd]
+      rw [← this]; exact hmem
+    · have he : expireTicket (s.now + 1) t = t := by
         unfold expireTicket
-        have : ¬ t.deadline = s.now + 1 := by omega
+        have : ¬ t.deadline ≤ s.now + 1 := by omega
         simp [hp, this]
+      rw [he] at hmem
       exact ih (tick_inv i) t hmem hp ha (by rw [tick_now]; omega)
 
 example :
-    (run (init 5 false) [.drop, .outgoing 1, .advance 5]).tickets =
-      [⟨1, .timedOut 5, 5, true⟩] := by decide
+    (run (init 5 30 50 false) [.drop, .outgoing 1, .advance 5]).tickets =
+      [⟨1, .timedOut 5, 5, true⟩] := by decide +kernel
+
+/-- more callers than the outgoing limiter has slots: the loss cancels those queued as well -/
+example :
+    ((run (init 30 30 2 false) [.outgoing 1, .outgoing 2, .outgoing 3, .drop]).tickets.map (·.status)) =
+      [.cancelled, .cancelled, .cancelled] := by decide +kernel
 
 /-! ## from loss to closed -/
 
-/-- **Loss leads to closed**: from every reachable state in which the connection is lost,
-letting the largest remaining reaction of a stubborn handler pass sets `_closed_event` - and
-it stays set (`n` may be any larger amount of time). -/
-theorem loss_leads_to_closed {s : S} (h : Reachable s) (hl : s.lost = true) (n : Nat)
-    (hn : maxRemaining s ≤ n) : (s.advance n).closedEvent = true := by
-  apply closed_after n h.inv.h hl
-  intro x hx u hu
-  have := remaining_le_max s x hx
-  simp only [remaining, hu] at this
-  omega
+/-- **Loss (or any other teardown) leads to closed**: from every reachable state in which
+message processing has been torn down - the connection is lost, or a handler task ended with a
+cancellation - letting the longest remaining reaction of a stubborn handler pass sets
+`_closed_event`, it stays set, and the connection is lost then (aborted if need be). -/
+theorem loss_leads_to_closed {s : S} (h : Reachable s) (hd : s.down = true) (m : Nat)
+    (hm : reactBound s ≤ m) : (s.advance m).closedEvent = true ∧ (s.advance m).lost = true := by
+  have hc := closed_from h.inv hd (RB_reactBound s) m hm
+  exact ⟨hc, ((advance_inv m h.inv).h.closedThen hc).1⟩
 
-/-- ... and nothing can postpone it: **no new handler starts after the loss** - every event
-leaves the set of handlers as it is. -/
-theorem no_handler_after_loss (s : S) (hl : s.lost = true) (e : Event) :
-    (step s e).handlers.map (·.id) = s.handlers.map (·.id) := by
-  have fr : ∀ (n : Nat) (l : List Handler),
-      (l.map (finishReaction n)).map (·.id) = l.map (·.id) := by
-    intro n l
-    simp only [List.map_map]
-    apply List.map_congr_left
-    intro x _
-    simp only [Function.comp]
-    unfold finishReaction
-    split
-    · split <;> rfl
-    · rfl
-  cases e with
-  | request i k => simp [step, hl]
-  | handlerFinish i => simp [step, hl]
-  | outgoing k => unfold step; simp only []; split <;> rfl
-  | answer k => simp [step, hl]
-  | drop =>
-    show (S.lose { s with closing := true }).handlers.map (·.id) = _
-    rw [lose_handlers_of_lost (q := { s with closing := true }) hl]
-  | appClose c fa =>
-    have tc : ∀ q : S, q.lost = true → q.transportClose.handlers = q.handlers := by
-      intro q hq
-      rcases transportClose_cases q with ⟨_, e⟩ | ⟨_, _, e⟩ | ⟨_, _, e⟩ <;> rw [e]
-      exact lose_handlers_of_lost (q := { q with closing := true }) hq
-    unfold step; simp only []
-    split
-    · rfl
-    · split
-      · rfl
-      · split
-        · unfold S.doAbort
-          refine congrArg _ (lose_handlers_of_lost ?_)
-          exact hl
-        · refine congrArg _ (tc _ ?_)
-          exact hl
-  | abort =>
-    show (S.lose { s with aborts := s.aborts ++ [s.now], closing := true }).handlers.map (·.id) = _
-    rw [lose_handlers_of_lost (q := { s with aborts := s.aborts ++ [s.now], closing := true }) hl]
-  | advance dt =>
-    show (s.advance dt).handlers.map (·.id) = _
-    induction dt generalizing s with
-    | zero => rfl
-    | succ n ih =>
-      show (s.tick.advance n).handlers.map (·.id) = _
-      rw [ih s.tick (tick_lost hl), tick_handlers_of_lost hl, fr]
-
-/-- **No data after the loss**: once the asyncio transport is closing (or the connection is
-lost) a request or a response from the peer changes nothing. -/
-theorem no_data_after_loss (s : S) (hc : s.closing = true ∨ s.lost = true) (i : Nat) (k : HKind) :
-    step s (.request i k) = s ∧ step s (.answer i) = s := by
+/-- **No data after the loss**: once the asyncio transport is closing, or message processing is
+torn down, a request or a response from the peer changes nothing - in particular no new handler
+can start and postpone `_closed_event`. -/
+theorem no_data_after_loss (s : S) (hc : s.closing = true ∨ s.down = true) (i : Nat) (k : HKind)
+    (fa : Nat) :
+    step s (.request i k) = s ∧ step s (.replyClose i fa) = s ∧ step s (.answer i) = s := by
   rcases hc with hc | hc <;> simp [step, hc]
 
-example : (run (init 30 false) [.request 1 (.stubborn 3), .drop]).closedEvent = false ∧
-    (run (init 30 false) [.request 1 (.stubborn 3), .drop, .advance 3]).closedEvent = true := by
-  decide
+example : (run (init 30 30 50 false) [.request 1 (.stubborn 3), .drop]).closedEvent = false ∧
+    (run (init 30 30 50 false) [.request 1 (.stubborn 3), .drop, .advance 3]).closedEvent = true := by
+  decide +kernel
+
+/-- a stubborn handler's reaction to the teardown is cut short by its processing timeout -/
+example : (run (init 30 5 50 false) [.request 1 (.stubborn 20), .advance 2, .drop, .advance 2]).closedEvent = false ∧
+    (run (init 30 5 50 false) [.request 1 (.stubborn 20), .advance 2, .drop, .advance 3]).closedEvent = true := by
+  decide +kernel
 
 /-! ## close() -/
 
 /-- **`close()` on a closed connection returns at once.** -/
-theorem close_returns_immediately (s : S) (hc : s.closedEvent = true) (c fa : Nat)
+theorem close_returns_immediately {s : S} (h : Reachable s) (hc : s.closedEvent = true) (c fa : Nat)
     (hu : usedCloser s c = false) :
     (step s (.appClose c fa)).closers = s.closers ++ [⟨c, s.now, s.now + fa, .returned s.now⟩] := by
-  simp [step, hu, hc]
+  have hcl := h.inv.h.lostClosing (h.inv.h.closedThen hc).1
+  unfold step
+  simp only []
+  rw [if_neg (by simp [hu]), if_pos hc]
+  rcases transportClose_cases
+      { s with closers := s.closers ++ [⟨c, s.now, s.now + fa, .returned s.now⟩] } with
+    ⟨_, e⟩ | ⟨h1, _⟩ | ⟨h1, _⟩
+  · rw [e]
+  · rw [hcl] at h1; cases h1
+  · rw [hcl] at h1; cases h1
 
 /-- **Every `close()` returns exactly when `_closed_event` is set** (or at once if called
 later): in every reachable state, if `_closed_event` was set at instant `T` every task that
-called `close()` has returned, at `max (its call instant) T`; if it is not set nobody has
-returned. -/
+called `close()` (and was not cancelled by the application) has returned, at
+`max (its call instant) T`; if it is not set nobody has returned. -/
 theorem close_returns_at_closed {s : S} (h : Reachable s) :
     (∀ T, s.closedAt = some T → s.closedEvent = true ∧
-      ∀ c ∈ s.closers, c.st = .returned (max c.start T)) ∧
+      ∀ c ∈ s.closers, c.st = .returned (max c.start T) ∨ ∃ a, c.st = .cancelled a) ∧
     (s.closedEvent = true → s.closedAt ≠ none) ∧
     (s.closedEvent = false → ∀ c ∈ s.closers, ∀ a, c.st ≠ .returned a) := by
   have i := h.inv.c
-  refine ⟨fun T hT => ⟨(i.closedAtSome T hT).1, (i.closedAtSome T hT).2.2⟩, ?_, i.openNone⟩
-  intro hc hn
-  have := i.closedAtNone hn
-  simp [hc] at this
+  refine ⟨?_, ?_, ?_⟩
+  · intro T hT
+    have hce := (i.caSome T hT).1
+    refine ⟨hce, ?_⟩
+    intro c hc
+    have := i.ok c hc
+    unfold COk at this
+    rw [hce, hT] at this
+    cases hs : c.st with
+    | waiting => simp [hs] at this
+    | abortedWaiting => simp [hs] at this
+    | returned a =>
+      simp only [hs] at this
+      obtain ⟨_, T', hT', ha, _⟩ := this
+      cases hT'
+      left; rw [ha]
+    | cancelled a => right; exact ⟨a, rfl⟩
+  · intro hc hn
+    have := i.caNone hn
+    simp [hc] at this
+  · intro hce c hc a hs
+    have := i.ok c hc
+    unfold COk at this
+    simp only [hs] at this
+    obtain ⟨_, T, hT, _⟩ := this
+    have := (i.caSome T hT).1
+    simp [hce] at this
 
-/-- **If the graceful close does not finish in time an abort is forced - at exactly
-`force_after` - and the task keeps waiting**: in every reachable state a task inside `close()`
-whose deadline has been reached has either returned or has called `abort()` at exactly its
-deadline (which brought the loss) and is still waiting; one whose deadline is still ahead has not
-aborted. -/
+/-- **If the graceful close does not finish in time an abort is forced**: in every reachable
+state, for a task inside `close()` whose `force_after` deadline has been reached (and which the
+application has not cancelled), the connection was lost by that deadline - because the link
+went, because the graceful close did complete (then the transport is not a stalled one), or
+because `abort()` was called, at exactly that instant -; and as long as the task is in its
+bounded wait the deadline is still ahead. -/
 theorem close_forces_abort {s : S} (h : Reachable s) (c : Closer) (hc : c ∈ s.closers) :
-    (c.deadline ≤ s.now →
-      (∃ a, c.st = .returned a) ∨
-      (c.st = .abortedWaiting ∧ c.deadline ∈ s.aborts ∧ s.lost = true)) ∧
-    (s.now < c.deadline → c.st ≠ .abortedWaiting) := by
-  have i := h.inv.c
+    (c.deadline ≤ s.now → (∃ a, c.st = .cancelled a) ∨
+      ∃ t, s.lostAt = some t ∧ t ≤ c.deadline ∧
+        (s.lostBy = some .link ∨ (s.lostBy = some .graceful ∧ s.stalled = false) ∨
+         (s.lostBy = some .abort ∧ s.abortedAt = some t))) ∧
+    (c.st = .waiting → s.now < c.deadline) := by
+  have i := h.inv
+  have hk := i.c.ok c hc
+  unfold COk at hk
   constructor
   · intro hd
+    have key : ∀ t, s.lostAt = some t → t ≤ c.deadline → ∃ t, s.lostAt = some t ∧ t ≤ c.deadline ∧
+        (s.lostBy = some .link ∨ (s.lostBy = some .graceful ∧ s.stalled = false) ∨
+         (s.lostBy = some .abort ∧ s.abortedAt = some t)) := by
+      intro t ht htd
+      refine ⟨t, ht, htd, ?_⟩
+      have hl := (i.l.laSome t ht).1
+      cases hb : s.lostBy with
+      | none => have := i.l.lbNone hb; simp [hl] at this
+      | some w =>
+        cases w with
+        | link => left; rfl
+        | graceful => right; left; exact ⟨rfl, i.l.byGraceful hb⟩
+        | abort => right; right; exact ⟨rfl, by rw [i.l.byAbort hb, ht]⟩
     cases hs : c.st with
-    | waiting => have := i.waitingLt c hc hs; omega
-    | abortedWaiting => right; exact ⟨rfl, (i.aborted c hc hs).2, i.abortedLost c hc hs⟩
-    | returned a => left; exact ⟨a, rfl⟩
-  · intro hd hs
-    have := (i.aborted c hc hs).1
-    omega
+    | waiting => simp only [hs] at hk; omega
+    | abortedWaiting =>
+      simp only [hs] at hk
+      obtain ⟨_, _, _, t, ht, htd⟩ := hk
+      right; exact key t ht htd
+    | returned a =>
+      simp only [hs] at hk
+      obtain ⟨_, _, _, _, t, ht, htd⟩ := hk
+      right; exact key t ht htd
+    | cancelled a => left; exact ⟨a, rfl⟩
+  · intro hs
+    simp only [hs] at hk
+    exact hk.2.1
 
-/-- **Every `close()` returns**: from every reachable state, for every task inside `close()`,
-after its remaining `force_after` time plus the longest reaction of a handler to its
-cancellation, `_closed_event` is set and every task inside `close()` has returned. -/
-theorem close_returns {s : S} (h : Reachable s) (c : Closer) (hc : c ∈ s.closers) (n : Nat)
-    (hn : (c.deadline - s.now) + reactBound s ≤ n) :
-    (s.advance n).closedEvent = true ∧ ∀ c' ∈ (s.advance n).closers, ∃ a, c'.st = .returned a := by
+/-- **A `close()` cut short by a cancellation of its caller still forces the abort** (repair
+F25): cancelling a task in the bounded wait of `close()` leaves the connection lost. -/
+theorem cancelled_close_aborts {s : S} (h : Reachable s) (c : Closer) (hc : c ∈ s.closers)
+    (hw : c.st = .waiting) : (step s (.cancelClose c.id)).lost = true := by
+  show (s.cancelClose c.id).lost = true
+  unfold S.cancelClose
+  simp only []
+  have : (s.closers.any fun x => x.id == c.id && x.st == .waiting) = true := by
+    simp only [List.any_eq_true]
+    exact ⟨c, hc, by simp [hw]⟩
+  simp only [h.inv.fixed, this, Bool.and_self, ↓reduceIte]
+  exact doAbort_lost _
+
+/-- **Every `close()` returns**: from every reachable state, for every task in the bounded wait
+of `close()`, after its remaining `force_after` time plus the longest reaction of a handler to
+its cancellation, `_closed_event` is set and nobody is inside `close()` any more. -/
+theorem close_returns {s : S} (h : Reachable s) (c : Closer) (hc : c ∈ s.closers)
+    (hw : c.st = .waiting) (n : Nat) (hn : (c.deadline - s.now) + reactBound s ≤ n) :
+    (s.advance n).closedEvent = true ∧
+    ∀ c' ∈ (s.advance n).closers, (∃ a, c'.st = .returned a) ∨ (∃ a, c'.st = .cancelled a) := by
   have i := h.inv
-  obtain ⟨m, rfl⟩ : ∃ m, n = (c.deadline - s.now) + m := ⟨n - (c.deadline - s.now), by omega⟩
-  have hm : reactBound s ≤ m := by omega
-  rw [advance_add]
-  have i1 := advance_inv (c.deadline - s.now) i
   have hl : (s.advance (c.deadline - s.now)).lost = true :=
-    lost_by_deadline _ i ⟨c, hc, by omega⟩
-  have hrb : RB (s.advance (c.deadline - s.now)) m :=
-    advance_RB _ (fun x hx => Nat.le_trans (RB_reactBound s x hx) hm)
-  have hce := closed_after m i1.h hl (RB_reacting hrb)
-  exact ⟨hce, (advance_inv m i1).c.closedAll hce⟩
+    lost_by _ i (Or.inl ⟨c, hc, hw, by omega⟩)
+  have hce := closed_after_lost_by i _ hl n hn
+  have hr : Reachable (s.advance n) := h.step (.advance n)
+  exact ⟨hce, (closed_implies_clean hr hce).2.2.2.2⟩
 
-theorem Reachable.ginv {s : S} (h : Reachable s) : GInv s := by
-  obtain ⟨rt, st, es, hrt, rfl⟩ := h
-  exact run_ginv es (init_inv rt st hrt) (init_ginv rt st)
+/-- the property "a connection is never left half closed" of a whole connection `s0`: in every
+state it can reach, while the asyncio transport is closing without `connection_lost` having
+come, somebody is inside `close(force_after)` with its abort still ahead -/
+def NeverHalfClosed (s0 : S) : Prop :=
+  ∀ es, let s := run s0 es
+    s.closing = true → s.lost = false →
+      (∃ c ∈ s.closers, c.st = .waiting ∧ s.now < c.deadline) ∨
+      (∃ x ∈ s.handlers, x.status = .run ∧ ∃ d, x.kind = .closer d ∧ s.now < d)
 
 /-- **A connection is never left half closed**: while the asyncio transport is closing but
 `connection_lost` has not come (a graceful close that does not complete), somebody - an
-application task or a handler - is inside `close(force_after)` with its timer still ahead. -/
+application task or a handler - is inside `close(force_after)` with the instant at which its wait
+ends in an abort (its `force_after`, or the handler's processing timeout) still ahead. -/
 theorem never_half_closed {s : S} (h : Reachable s) (hc : s.closing = true) (hl : s.lost = false) :
     (∃ c ∈ s.closers, c.st = .waiting ∧ s.now < c.deadline) ∨
     (∃ x ∈ s.handlers, x.status = .run ∧ ∃ d, x.kind = .closer d ∧ s.now < d) := by
-  rcases h.ginv hc hl with ⟨c, hcm, hw⟩ | ⟨x, hx, hr, d, hk⟩
-  · left; exact ⟨c, hcm, hw, h.inv.c.waitingLt c hcm hw⟩
-  · right; exact ⟨x, hx, hr, d, hk, h.inv.h.closerLt x hx d hk hr⟩
+  rcases h.ginv hc hl with ⟨c, hcm, hw⟩ | ⟨x, hx, hin⟩
+  · left
+    have := h.inv.c.ok c hcm
+    unfold COk at this
+    simp only [hw] at this
+    exact ⟨c, hcm, hw, this.2.1⟩
+  · right
+    have hk := h.inv.h.ok x hx
+    unfold HOk at hk
+    unfold Handler.inClose at hin
+    simp only [Bool.and_eq_true, beq_iff_eq] at hin
+    obtain ⟨hr, hkd⟩ := hin
+    cases hkk : x.kind with
+    | closer d =>
+      simp only [hr, hkk] at hk
+      exact ⟨x, hx, hr, d, hkk, hk.2.1⟩
+    | quick => simp [hkk] at hkd
+    | slow => simp [hkk] at hkd
+    | stubborn r => simp [hkk] at hkd
+    | aborter => simp [hkk] at hkd
+    | thenClose fa => simp [hkk] at hkd
+
+theorem never_half_closed_all (rt pt ol : Nat) (st : Bool) (hrt : 0 < rt) (hpt : 0 < pt) :
+    NeverHalfClosed (init rt pt ol st) :=
+  fun es => never_half_closed ⟨rt, pt, ol, st, es, hrt, hpt, rfl⟩
+
+/-- the pinned code leaves a connection half closed for ever in three ways (four histories): (1) a handler
+calls `close(force_after)` and its processing timeout fires while `close()` waits (the
+TimeoutCancellationError passes `except TaskTimeout`, `abort()` never runs); (2) the application
+cancels a task inside `close()`; (3) a handler task ends with a cancellation (message processing
+is torn down, `_closed_event` set, the socket stays open) and a later `close()` returns at once
+although the graceful close never completes.  In each case: transport closing, no
+`connection_lost`, nobody inside `close()`, after 300 s. -/
+theorem never_half_closed_pinned_witness :
+    (let s := run (initPinned 30 30 50 true) [.request 1 (.closer 40), .advance 300]
+     s.closing = true ∧ s.lost = false ∧ s.hookRuns = 0 ∧ s.closers = [] ∧
+       s.handlers.all Handler.isDone = true) ∧
+    (let s := run (initPinned 30 30 50 true) [.appClose 1 30, .advance 3, .cancelClose 1, .advance 300]
+     s.closing = true ∧ s.lost = false ∧ s.hookRuns = 0 ∧ s.closers.map (·.st) = [.cancelled 3]) ∧
+    (let s := run (initPinned 30 30 50 true)
+       [.request 1 .slow, .handlerCancel 1, .appClose 1 7, .advance 300]
+     s.closing = true ∧ s.lost = false ∧ s.closedEvent = true ∧
+       s.closers.map (·.st) = [.returned 0]) ∧
+    -- (1) as the audit reproduced it: the handler works for a second, then `await self.close()`
+    -- with the default force_after 30 = processing_timeout
+    (let s := run (initPinned 30 30 50 true)
+       [.request 1 (.thenClose 30), .advance 1, .handlerFinish 1, .advance 300]
+     s.closing = true ∧ s.lost = false ∧ s.hookRuns = 0 ∧ s.handlers.all Handler.isDone = true) := by
+  decide +kernel
+
+theorem never_half_closed_pinned_fails : ¬ NeverHalfClosed (initPinned 30 30 50 true) := by
+  intro h
+  have hw := never_half_closed_pinned_witness.1
+  simp only [] at hw
+  obtain ⟨h1, h2, _, h4, h5⟩ := hw
+  rcases h [.request 1 (.closer 40), .advance 300] h1 h2 with ⟨c, hc, _⟩ | ⟨x, hx, hr, _⟩
+  · rw [h4] at hc; cases hc
+  · have := (all_isDone _).mp h5 x hx
+    rw [hr] at this; cases this
+
+/-- ... the same three histories with the repair: aborted at the processing deadline / at the
+cancellation / when message processing ended -/
+example :
+    (run (init 30 30 50 true) [.request 1 (.closer 40), .advance 300]).abortedAt = some 30 ∧
+    (run (init 30 30 50 true) [.appClose 1 30, .advance 3, .cancelClose 1, .advance 300]).abortedAt = some 3 ∧
+    (run (init 30 30 50 true) [.request 1 .slow, .handlerCancel 1, .appClose 1 7, .advance 300]).abortedAt
+      = some 0 ∧
+    (run (init 30 30 50 true)
+      [.request 1 (.thenClose 30), .advance 1, .handlerFinish 1, .advance 300]).abortedAt = some 30 := by
+  decide +kernel
 
 /-- **Closing always ends closed**: from every reachable state in which the transport is
 closing - after a drop, an abort, a completed or a stalled graceful close, from an application
@@ -394,29 +654,58 @@ theorem closing_leads_to_closed {s : S} (h : Reachable s) (hc : s.closing = true
     ∃ n, ∀ m, n ≤ m → (s.advance m).closedEvent = true := by
   rcases Bool.eq_false_or_eq_true s.lost with hl | hl
   · exact ⟨0 + reactBound s, closed_after_lost_by h.inv 0 hl⟩
-  · rcases never_half_closed h hc hl with ⟨c, hcm, _, _⟩ | ⟨x, hx, hr, d, hk, _⟩
+  · rcases never_half_closed h hc hl with ⟨c, hcm, hw, _⟩ | ⟨x, hx, hr, d, hk, _⟩
     · exact ⟨(c.deadline - s.now) + reactBound s,
-        closed_after_lost_by h.inv _ (lost_by_deadline _ h.inv ⟨c, hcm, by omega⟩)⟩
-    · exact ⟨(d - s.now) + reactBound s,
-        closed_after_lost_by h.inv _
-          (lost_by_handler_deadline _ h.inv ⟨x, hx, hr, d, hk, by omega⟩)⟩
+        closed_after_lost_by h.inv _ (lost_by _ h.inv (Or.inl ⟨c, hcm, hw, by omega⟩))⟩
+    · refine ⟨(d - s.now) + reactBound s,
+        closed_after_lost_by h.inv _ (lost_by _ h.inv (Or.inr ⟨x, hx, ?_, d, hk, by omega⟩))⟩
+      simp [Handler.inClose, hr, hk]
 
-example : (run (init 30 true) [.request 1 .slow, .request 2 (.closer 7)]).closing = true ∧
-    (run (init 30 true) [.request 1 .slow, .request 2 (.closer 7)]).lost = false ∧
-    (run (init 30 true) [.request 1 .slow, .request 2 (.closer 7), .advance 7]).closedEvent = true := by
-  decide
+example : (run (init 30 30 50 true) [.request 1 .slow, .request 2 (.closer 7)]).closing = true ∧
+    (run (init 30 30 50 true) [.request 1 .slow, .request 2 (.closer 7)]).lost = false ∧
+    (run (init 30 30 50 true) [.request 1 .slow, .request 2 (.closer 7), .advance 7]).closedEvent = true := by
+  decide +kernel
+
+/-- **... whatever happens meanwhile**: from every reachable state in which the transport is
+closing or message processing is torn down there is an instant `T` such that after *any*
+continuation - requests, answers, more `close()` / `abort()` calls, cancellations, drops, clock
+ticks in any order - that brings the clock to `T` or beyond, `_closed_event` is set.  (No new
+handler can start, whoever sits in `close()` keeps its deadline or brings the loss earlier, the
+handlers' reactions end by "deadline + reaction time": `Anytime.lean`.) -/
+theorem closing_leads_to_closed_any {s : S} (h : Reachable s) (hc : s.closing = true ∨ s.down = true) :
+    ∃ T, ∀ es, T ≤ (run s es).now → (run s es).closedEvent = true := by
+  have i := h.inv
+  obtain ⟨A, w⟩ : ∃ A, Will s A := by
+    rcases Bool.eq_false_or_eq_true s.down with hd | hd
+    · exact ⟨s.now, Or.inl hd⟩
+    · have hcl : s.closing = true := by
+        rcases hc with h1 | h1
+        · exact h1
+        · rw [hd] at h1; cases h1
+      have hl := i.h.not_lost_of_not_down hd
+      rcases never_half_closed h hcl hl with ⟨c, hcm, hw, _⟩ | ⟨x, hx, hr, d, hk, _⟩
+      · exact ⟨c.deadline, Or.inr (Or.inl ⟨c, hcm, hw, Nat.le_refl _⟩)⟩
+      · exact ⟨d, Or.inr (Or.inr ⟨x, hx, by simp [Handler.inClose, hr, hk], d, hk, Nat.le_refl _⟩)⟩
+  refine ⟨max A (endBound s A), ?_⟩
+  intro es hT
+  obtain ⟨i', w', e'⟩ := run_will es i w (EB_endBound s A)
+  exact closed_of_will i' w' e' (by omega) (by omega)
+
+/-- a stalled close from a handler, then requests, answers, a second close, cancellations: closed
+at 8 (the cancelled close() aborts at 5, the stubborn handler reacts until 8) all the same -/
+example :
+    let s := run (init 30 30 50 true)
+      [.request 1 (.stubborn 3), .outgoing 1, .request 2 (.closer 7), .advance 2, .request 3 .slow,
+       .answer 1, .appClose 1 30, .advance 3, .cancelClose 1, .outgoing 2, .advance 5]
+    s.closedEvent = true ∧ s.closedAt = some 8 ∧ s.abortedAt = some 5 := by decide +kernel
 
 /-- **Closing is safe from any context, concurrently and repeatedly**: any number of
-`appClose` / closing-handler / abort / drop events, in any order and interleaved with anything
-else, keep every invariant - in particular the hook still runs once, and the closers return
-together. (This is `Reachable.inv` spelled out for the events in question.) -/
+`appClose` / closing-handler / cancelClose / abort / drop events, in any order and interleaved
+with anything else, keep every invariant - in particular the hook still runs once, and the
+closers return together. (This is `Reachable.inv` spelled out for the events in question.) -/
 theorem close_reentrant {s : S} (h : Reachable s) (es : List Event) :
-    Inv (run s es) ∧ (run s es).hookRuns ≤ 1 := by
-  have hr : Reachable (run s es) := by
-    induction es generalizing s with
-    | nil => exact h
-    | cons e es ih => exact ih (h.step e)
-  exact ⟨hr.inv, (hook_at_most_once hr).1⟩
+    Inv (run s es) ∧ GInv (run s es) ∧ (run s es).hookRuns ≤ 1 :=
+  ⟨(h.run es).inv, (h.run es).ginv, (hook_at_most_once (h.run es)).1⟩
 
 /-! ## a conversation: two handlers (one stubborn), two outgoing requests, two concurrent
 closers and a drop -/
@@ -425,36 +714,35 @@ def demo : List Event :=
   [.request 1 .slow, .request 2 (.stubborn 3), .outgoing 1, .outgoing 2, .answer 1,
    .appClose 1 7, .appClose 2 7, .drop, .advance 1]
 
-example : (run (init 30 false) demo).hookRuns = 1 ∧
-    (run (init 30 false) demo).tickets.map (·.status) = [.answered, .cancelled] ∧
-    (run (init 30 false) demo).closers.map (·.st) = [.waiting, .waiting] ∧
-    (run (init 30 false) demo).closedEvent = false ∧
-    (run (init 30 false) (demo ++ [.advance 2])).closedEvent = true ∧
-    (run (init 30 false) (demo ++ [.advance 2])).closers.map (·.st) = [.returned 3, .returned 3] ∧
-    (run (init 30 false) (demo ++ [.advance 2, .appClose 3 7])).closers.map (·.st) =
-      [.returned 3, .returned 3, .returned 3] := by decide
+example : (run (init 30 30 50 false) demo).hookRuns = 1 ∧
+    (run (init 30 30 50 false) demo).tickets.map (·.status) = [.answered, .cancelled] ∧
+    (run (init 30 30 50 false) demo).closers.map (·.st) = [.waiting, .waiting] ∧
+    (run (init 30 30 50 false) demo).closedEvent = false ∧
+    (run (init 30 30 50 false) (demo ++ [.advance 2])).closedEvent = true ∧
+    (run (init 30 30 50 false) (demo ++ [.advance 2])).closers.map (·.st) = [.returned 3, .returned 3] ∧
+    (run (init 30 30 50 false) (demo ++ [.advance 2, .appClose 3 7])).closers.map (·.st) =
+      [.returned 3, .returned 3, .returned 3] := by decide +kernel
 
 /-- the same on a transport whose graceful close never completes: the first closer's
-`force_after` brings the abort at exactly 7, the second one's (called at 1) at 8 - still waiting
-for the stubborn handler -, both return at 10 -/
+`force_after` brings the abort at exactly 7 - still waiting for the stubborn handler -, both
+return at 10 -/
 example :
-    let s := run (init 30 true)
+    let s := run (init 30 30 50 true)
       [.request 1 .slow, .request 2 (.stubborn 3), .outgoing 1, .appClose 1 7, .advance 1,
        .appClose 2 7, .advance 20]
-    s.aborts = [7, 8] ∧ s.closers.map (·.st) = [.returned 10, .returned 10] ∧
+    s.abortedAt = some 7 ∧ s.lostBy = some .abort ∧
+    s.closers.map (·.st) = [.returned 10, .returned 10] ∧
     s.tickets.map (·.status) = [.cancelled] ∧ s.hookRuns = 1 := by decide +kernel
 
-/-! ## tie to the source (`Aiorpcx.Facts.C08`, regenerated from /repo on every run) -/
+/-! ## tie to the source (`Aiorpcx.Facts.C08`: tables obtained by running the code of /repo
+through its public interfaces on stubs, regenerated on every check) -/
 
 open Facts.C08 in
-/-- `connection_lost` of both transports, run on a stub in all four flag combinations: opens
-the send gate and fails the framer with ConnectionLostError (that is what ends the message loop:
-the model's `lose` is unconditional), and does not itself set `_closed_event` (that is left to
-`process_messages`' `finally`, the model's `settle`). -/
+/-- `connection_lost` of both transports, run on a stub with the send buffer full or not: fails
+the framer with ConnectionLostError (that is what ends the message loop: the model's `lose` is
+unconditional) and releases a writer blocked on the full send buffer. -/
 theorem facts_connection_lost :
-    lostRS = [⟨false, false, true, true, false⟩, ⟨false, true, true, true, false⟩,
-              ⟨true, false, true, true, false⟩, ⟨true, true, true, true, false⟩] ∧
-    lostUS = lostRS := by decide
+    lostRS = [⟨false, false, true, true⟩, ⟨true, true, true, true⟩] ∧ lostUS = lostRS := by decide
 
 open Facts.C08 in
 /-- `is_closing()` is the model's `S.isClosing` -/
@@ -463,54 +751,69 @@ theorem facts_is_closing :
       ⟨ce, tc, ({ closedEvent := ce, closing := tc } : S).isClosing⟩)) ∧
     isClosingUS = isClosingRS := by decide
 
-/-- the model's account of one of the `close(force_after)` table runs: the graceful close
-completing `d` seconds after `close()` is a stubborn handler reacting for `d` seconds; a close
-that never completes is a stalled transport, the 2 s after `abort()` again a reaction -/
-def closeRow (already : Bool) (graceful : Option Nat) (fa : Nat) : Facts.C08.CloseRow :=
-  let pre : List Event :=
-    if already then [.drop] else
-    match graceful with
-    | some 0 => []
-    | some d => [.request 1 (.stubborn d)]
-    | none => [.request 1 (.stubborn 2)]
-  let s := run (init 30 (graceful.isNone && !already)) (pre ++ [.appClose 1 fa, .advance 20])
-  ⟨already, graceful, fa, 1, s.aborts,
+/-- the model's account of one of the `close(force_after)` table runs: a transport whose
+graceful close never completes by itself, `connection_lost` `d` seconds after `close()` is a
+drop of the link then, message processing that takes 2 s to end is a stubborn handler reacting
+for 2 s, the caller cancelled after `k` seconds is `cancelClose` -/
+def closeRow (already : Bool) (graceful : Option Nat) (fa : Nat) (cancelAt : Option Nat) :
+    Facts.C08.CloseRow :=
+  let pre : List Event := if already then [.drop] else [.request 1 (.stubborn 2)]
+  let mid : List Event := match graceful with
+    | some d => [.advance d, .drop]
+    | none => []
+  let can : List Event := match cancelAt with
+    | some k => [.advance k, .cancelClose 1]
+    | none => []
+  let s := run (init 30 1000 50 true) (pre ++ [.appClose 1 fa] ++ mid ++ can ++ [.advance 40])
+  ⟨already, graceful, fa, cancelAt, 1, s.abortedAt,
    match s.closers with
    | [c] => (match c.st with | .returned a => some a | _ => none)
    | _ => none,
-   true⟩
+   match s.closers with
+   | [c] => (match c.st with | .cancelled _ => "CancelledError" | _ => "")
+   | _ => ""⟩
 
 open Facts.C08 in
-/-- the real `close(force_after)` of both transports, run on the virtual loop in six scenarios
+/-- the real `close(force_after)` of both transports, run on the virtual loop in seven scenarios
 (already closed; graceful close done after 0 / 3 / 9 s with force_after 7; never done with
-force_after 7 / 1), does what the model does: one transport.close(), an abort at exactly
-`force_after` iff not closed by then, return at `_closed_event`, no exception. -/
+force_after 7 / 1; never done and the caller cancelled after 3 s), does what the model does: one
+transport.close(), an abort at exactly `force_after` iff not lost by then - or at the moment the
+caller is cancelled (repair F25) -, return when message processing has ended, no exception but
+the caller's own cancellation; before `connection_made` close() and abort() just return; the
+session's `close(force_after=..)` (default observed) and `abort()` go to the transport's. -/
 theorem facts_close_table :
-    closeRS = [closeRow true none 7, closeRow false (some 0) 7, closeRow false (some 3) 7,
-               closeRow false (some 9) 7, closeRow false none 7, closeRow false none 1] ∧
+    closeRS = [closeRow true none 7 none, closeRow false (some 0) 7 none,
+               closeRow false (some 3) 7 none, closeRow false (some 9) 7 none,
+               closeRow false none 7 none, closeRow false none 1 none,
+               closeRow false none 7 (some 3)] ∧
     closeUS = closeRS ∧ noTransportRS = [true, true] ∧ noTransportUS = [true, true] ∧
-    closeShapeRS = true ∧ closeShapeUS = true ∧ sessionCloseDelegates = true ∧
+    sessionCloseCalls = ["close 5", s!"close {defaultForceAfter}", "abort"] ∧
     0 < defaultForceAfter := by decide +kernel
 
 open Facts.C08 in
-/-- `process_messages` sets `_closed_event` however `session.process_messages` ends (return,
-ConnectionLostError, another exception, cancellation), structurally because of
-`finally: self._closed_event.set()`; ConnectionLostError - the way the message loop ends on a
-loss - is among the exceptions it swallows. -/
+/-- message processing of both transports ended in four ways (the session's process_messages
+returns, raises ConnectionLostError - the way the message loop ends on a loss -, raises another
+exception, is cancelled): the transport is closed afterwards in every case (the model's
+`settle`), ConnectionLostError is swallowed and everything else propagates, and the asyncio
+transport is aborted when processing ended with something else than the loss (repair F25; the
+model's `settle` on a connection that is not lost, reached through `handlerCancel`). -/
 theorem facts_process_messages :
-    pmClosedRS = [true, true, true, true] ∧ pmClosedUS = [true, true, true, true] ∧
-    pmFinallySetsClosedRS = true ∧ pmFinallySetsClosedUS = true ∧
-    pmCatchesRS.contains "ConnectionLostError" = true ∧
-    pmCatchesUS.contains "ConnectionLostError" = true := by decide
+    pmRS = [⟨"return", true, "returned", false⟩, ⟨"cle", true, "returned", false⟩,
+            ⟨"other", true, "KeyError", true⟩, ⟨"cancel", true, "cancelled", true⟩] ∧
+    pmUS = pmRS ∧
+    (let s := run (init 30 30 50 true) [.request 1 .slow, .handlerCancel 1]
+     s.closedEvent = true ∧ s.abortedAt.isSome = true) ∧
+    (let s := run (init 30 30 50 true) [.request 1 .slow, .drop]
+     s.closedEvent = true ∧ s.abortedAt.isSome = false) := by decide +kernel
 
 open Facts.C08 in
-/-- the hook runs exactly once however the message loop ends (`finally`), the loop lives in the
-session's TaskGroup whose exit `process_messages` awaits, and RPCSession's hook cancels the
-pending requests: `cancel_pending_requests` cancels what is pending and leaves what is done
-(the model's `cancelTicket`). -/
+/-- the hook runs exactly once however the message loop of either session class ends (its
+`recv` fails, raises something else, the task is cancelled); RPCSession's hook cancels the
+pending requests: `cancel_pending_requests` cancels what is pending and leaves what is done (the
+model's `cancelTicket`) and leaves nothing registered. -/
 theorem facts_hook_and_group :
-    hookRuns = [1, 1, 1] ∧ hookInFinally = true ∧ loopInGroup = true ∧
-    rpcHookCancelsPending = true ∧
+    hookRuns = [1, 1, 1, 1, 1, 1] ∧
+    rpcHookAfter = ["result", "cancelled", "cancelled"] ∧ cancelLeft = 0 ∧
     cancelAfter = ([⟨0, .answered, 0, false⟩, ⟨1, .pending, 0, false⟩, ⟨2, .cancelled, 0, false⟩,
                     ⟨3, .pending, 0, false⟩].map fun t =>
       match (cancelTicket t).status with
@@ -519,8 +822,13 @@ theorem facts_hook_and_group :
       | _ => "pending") := by decide
 
 open Facts.C08 in
-/-- the wait for a response is bounded by a positive `sent_request_timeout` (hypothesis
-`0 < reqTimeout` of `Reachable`) -/
-theorem facts_request_timeout : requestWaitBounded = true ∧ 0 < sentRequestTimeoutMs := by decide
+/-- an unanswered `send_request` ends with TaskTimeout at exactly `sent_request_timeout` - also
+when that attribute is set to something else -, which is positive (hypothesis `0 < reqTimeout`
+of `Reachable`); so is `processing_timeout` (`0 < procTimeout`); the outgoing limiter lets a
+positive number of requests out at once (the model's `outLimit`, passed to the driver). -/
+theorem facts_request_timeout :
+    requestOutcome = ["TaskTimeout", "TaskTimeout"] ∧
+    requestTimedOutAtMs = [sentRequestTimeoutMs, 7000] ∧
+    0 < sentRequestTimeoutMs ∧ 0 < processingTimeoutMs ∧ 0 < outgoingLimit := by decide
 
 end Aiorpcx.C08
